@@ -156,6 +156,23 @@ def op_singleton_registered_twice(rng, spec, m):
     used = _used_types(spec, m)
     nests = _nested_bps(spec)
     singles = [cid for cid, c in spec["ctors"].items() if c["lc"] == "singleton" and c["out"] in used]
+    # a generic singleton constructor and, in a nested blueprint, a concrete constructor for one of its specialisations: the
+    # specialisation `G<A>` then has constructors in two blueprints as well
+    gen_single = [cid for cid, c in spec["ctors"].items() if c["lc"] == "singleton" and c.get("generic_param")]
+    spec_types = sorted(set(t for k in ("handlers", "mws", "fallbacks") for x in spec[k].values() for (t, _mo) in x.get("ins", [])
+                            if "<" in t and any(t.split("<")[0] == spec["ctors"][g]["out"].split("<")[0] for g in gen_single)))
+    if nests and gen_single and spec_types and rng.random() < 0.5:
+        t = rng.choice(spec_types)
+        target = rng.choice(nests)
+        routes = [it[1] for (_bp, _i, it) in _bp_items(target) if it[0] == "route"]
+        if routes:
+            new = gen_single[0] + "_cdup"
+            spec["ctors"][new] = {"out": t, "ins": [], "lc": "singleton"}
+            target["items"].insert(0, ["ctor", new])
+            h = spec["handlers"][routes[0]]
+            if all(tt != t for (tt, _) in h["ins"]):
+                h["ins"].append([t, "ref"])
+            return {"singleton": new, "variant": "concrete_next_to_generic"}
     if not nests or not singles:
         return None
     cid = rng.choice(singles)
